@@ -73,11 +73,36 @@ def _server_origin(e: BaseException) -> Optional[str]:
     """If the exception was raised below the code under test - no harness frame deeper than the
     deepest frame of hypercorn - name that frame; None for an exception of the harness's own
     (including one raised by a harness callback that the server called)."""
-    frames = []
-    tb = e.__traceback__
-    while tb is not None:
-        frames.append((tb.tb_frame.f_code.co_filename, tb.tb_frame.f_code.co_name, tb.tb_lineno))
-        tb = tb.tb_next
+    def own_frames(x: BaseException) -> list:
+        out = []
+        tb = x.__traceback__
+        while tb is not None:
+            out.append((tb.tb_frame.f_code.co_filename, tb.tb_frame.f_code.co_name,
+                        tb.tb_lineno))
+            tb = tb.tb_next
+        return out
+
+    if isinstance(e, BaseExceptionGroup):
+        # (trio and asyncio task groups: the failure is a leaf, its path runs through the groups)
+        for sub in e.exceptions:
+            sub_origin = _server_origin_path(own_frames(e), sub, own_frames)
+            if sub_origin is not None:
+                return sub_origin
+        return None
+    return _judge_frames(own_frames(e))
+
+
+def _server_origin_path(prefix: list, e: BaseException, own_frames: Any) -> Optional[str]:
+    if isinstance(e, BaseExceptionGroup):
+        for sub in e.exceptions:
+            r = _server_origin_path(prefix + own_frames(e), sub, own_frames)
+            if r is not None:
+                return r
+        return None
+    return _judge_frames(prefix + own_frames(e))
+
+
+def _judge_frames(frames: list) -> Optional[str]:
     verif = str(VERIF) + os.sep
     deps = str(VERIF / ".deps") + os.sep
     src = str(REPO / "src" / "hypercorn") + os.sep
